@@ -105,6 +105,27 @@ def run(ctx):
                 ctx.holds('R-DEP', cfg, name)
                 if n_inst % 97 == 1:
                     ctx.sample({'config': cfg, 'fn': name, 'hidden_atoms': nh, 'verdict': 'no observable depends on them', 'ret': tm.show(r.ret, 0, 4)[:300] if isinstance(r.ret, tm.T) else str(r.ret)[:300]})
+        # generic functions (Hash::hash<H>, Sum / Product over an iterator type, serde impls): interpreted on their generic MIR with opaque type
+        # parameters; what they hand to the opaque callees (the hasher, the serializer) must not depend on a hidden lane either
+        n_gen = 0
+        for name, it in sorted(F.items.items()):
+            if not it.get('generic') or it.get('crate', 'glam') != 'glam':
+                continue
+            try:
+                nh, bad, r = analyse_root(ctx, cfg, F, H, name, it)
+            except Exception as e:
+                continue
+            if nh == 0:
+                continue
+            if bad and bad[0][0] == 'abort':
+                ctx.undecided('R-DEP', cfg, name, 'generic body left the analysable fragment (%s)' % bad[0][1])
+                continue
+            n_gen += 1
+            if bad:
+                ctx.violation('R-DEP', cfg, name, {'file': it['file'], 'line': it['line'], 'depends_on_hidden_lane': bad[:6]})
+            else:
+                ctx.holds('R-DEP', cfg, name)
+        ctx.floor('generic functions over hidden-lane types analysed (%s)' % cfg, n_gen, 1)
         ctx.floor('C08 instances with a hidden lane in their arguments (%s)' % cfg, n_inst, FLOOR.get(cfg, 1000))
         ctx.control('raw-register From conversion is reported hidden-dependent (%s)' % cfg, exempt_fired, 'From<Vec3A> for <register type> must depend on lane 3')
         # control 2: Vec4::min_element depends on lane 3 of its argument
